@@ -47,14 +47,16 @@ fn digest(case: &J) -> Result<Result<(String, bool), String>, Fail> {
     let cfg = cfg_from_json(&case["cfg"]);
     let ops = ops_from_json(&case["ops"]);
     let mut runs = vec![];
-    for _ in 0..2 {
+    // (five runs: a dependence on hash-map iteration order shows in some repetitions only, and
+    // a case that failed must fail again when the shrinker and the final re-execution replay it)
+    for _ in 0..5 {
         match run_marked(&json_text, &meta, &cfg, &ops, false) {
             Err(p) => return Err(panic_fail(&p, "scenario", case)),
             Ok(Err(e)) => return Ok(Ok((format!("new-failed:{e}"), false))),
             Ok(Ok(m)) => runs.push(m),
         }
     }
-    if runs[0].fuel_out || runs[1].fuel_out {
+    if runs.iter().any(|r| r.fuel_out) {
         return Ok(Ok(("fuel".into(), false)));
     }
     let render = |m: &Marked| -> String {
@@ -68,7 +70,7 @@ fn digest(case: &J) -> Result<Result<(String, bool), String>, Fail> {
         s
     };
     let a = render(&runs[0]);
-    let b = render(&runs[1]);
+    let b = runs[1..].iter().map(&render).find(|b| *b != a).unwrap_or_else(|| a.clone());
     if a != b {
         let la: Vec<&str> = a.lines().collect();
         let lb: Vec<&str> = b.lines().collect();
